@@ -31,6 +31,8 @@ MISSED = {
     "C12-c": "the oracle accepted both outcomes for an SOA add exactly 2^31 from the zone serial (RFC 1982: undefined); a replacement cannot leave the serial advanced, so only 'ignored' is accepted now",
     "C13-d": "handlers were always built with `SqliteZoneHandler::new`: new sub-property `configured_from_files` builds them with `try_from_config` (zone file, key files, journal), half of the cases after a restart from the journal",
     "C15-d": "the client sub-property only served direct answers with `preserve_intermediates = false`: alias answers (CNAME chain + target in one response) and both settings are generated now",
+    "C17-d": "the scripted socket implemented the futures-io traits directly, so hickory's tokio adapter (`runtime.rs: iocompat::AsyncIoTokioAsStd`) was never in the path: a third of the cases now reach the socket through tokio's I/O traits and that adapter",
+    "C18-c": "every caller of a shared lookup ran to completion: in 40 % of the de-duplication cases a second identical caller now joins and drops its lookup in flight, and a third one starting afterwards must still share the first exchange",
     "C19-c": "resolutions were strictly sequential: every third query is now resolved twice concurrently on the same recursor and both results are judged",
     "C20-d": "escaped dots were generated in the middle of a label only: labels now also begin or end with one (a relative name written `j\\.` ends in a dot character without being absolute)",
 }
